@@ -55,6 +55,10 @@ def gen_events(r, n, j):
     return ev
 
 
+def c14_in_range(ms):
+    return -2208988800000 <= ms <= 7258118400000
+
+
 def same_events(a, b):
     return a.dtype == b.dtype and a.shape == b.shape and a.tobytes() == b.tobytes()
 
@@ -135,14 +139,15 @@ def ex_catalog(ctx, ev, catalog_id=None, name=None, lat_case=None, header=True, 
                     meta_checks(ctx, rc, lab, src, got, tags, model)
         # ---- dataframe
         nr = CSEPCatalog(data=list(ev), catalog_id=catalog_id, name=name)        # to_dataframe with a region needs all events inside it
-        ok, df, tb = ctx.call(nr.to_dataframe)
+        with_dt = bool(seed % 2) and all(c14_in_range(e[1]) for e in ev)
+        ok, df, tb = ctx.call(nr.to_dataframe, with_datetime=with_dt)
         if ok:
             ok, got, tb = ctx.call(CSEPCatalog.from_dataframe, df)
         if not ok:
             ctx.violate("DataFrame round trip raised", rc, observed=repr(df if not ok and not hasattr(df, "columns") else got), tb=tb,
                         tags=dict(tags, route="dataframe", clause="raised", exc=type(got if hasattr(df, "columns") else df).__name__))
         else:
-            report(ctx, rc, "dataframe", src, got, tags)
+            report(ctx, rc, "dataframe" + (":with_datetime" if with_dt else ""), src, got, tags)
             # row-based forms (ASCII, DataFrame) carry the id in a per-event column: an empty catalog has no carrier for it
             if catalog_id is not None and len(ev) and (got.catalog_id is None or int(got.catalog_id) != catalog_id):
                 ctx.violate("integer catalog id lost in the DataFrame round trip", rc, observed=repr(got.catalog_id), expected=catalog_id,
